@@ -14,6 +14,8 @@
      alw v (raise AlwaysYield) | next|stop|pause|resume|reset|play t | wait c | signal|unhang c
      settest c v | fget f | fset f v | embed t (yield from t.__embed__(): yield every value of t until
      it raises StopStream, passing the received invals on)
+     try ... except ... endx (catch-all handler: except BaseException) | try ... finally ... endf (nestable;
+     any instruction, yields included, may stand in the protected part and in the handlers)
    st = [rs    : routine -> [state, pc, term]      (pc = 1 <=> no live generator)
          stack : <<"main", r, r', ...>>            (current time thread = last element)
          secs  : thread -> logical seconds (eighths)
@@ -21,7 +23,8 @@
          flow  : flow variable -> value
          q     : clock queue <<[t, r], ...>> ordered by time, FIFO among equals
          log   : what the bodies observed during the current external call
-         calls : every API call made during the current external call (for the L1 predicates)]
+         calls : every API call made during the current external call (for the L1 predicates)
+         ab, over : generators abandoned during the current external call / bound MaxAbandon exceeded]
 
    Documented semantics transcribed here (stream.py docstrings + sclang): next() runs to the next
    yield; return / exhaustion, failure and stop() -> Done (StopStream afterwards, or the terminal
@@ -43,17 +46,20 @@ Unbound == V("unbound", 0)
 Ret(val) == [k |-> "ret", x |-> val.x, v |-> val.v]
 Exc(cls) == [k |-> "exc", x |-> cls, v |-> 0]
 Out(k, x, val) == [k |-> k, x |-> x, v |-> val]
-RS(state, pc, term) == [state |-> state, pc |-> pc, term |-> term, mid |-> FALSE]   \* mid: suspended inside an embed loop
+RS(state, pc, term) == [state |-> state, pc |-> pc, term |-> term, mid |-> FALSE, pend |-> <<>>]
+    \* mid: suspended inside an embed loop; pend: pending actions of the finally blocks being executed
+    \* (pc = 1 /\ ~mid) <=> the routine has no live generator
 
 Cur(s) == s.stack[Len(s.stack)]
 Now(s) == s.secs[Cur(s)]
 IsFlow(s, c) == c \in DOMAIN s.flow
 TestOf(s, c) == IF IsFlow(s, c) THEN s.flow[c] # Unbound ELSE s.cond[c].test
 
-AddLog(s, r, pc, ev, res) ==
+\* fm: the entry was written by clean-up code of an abandoned generator (it does not run inside next())
+AddLogM(s, r, pc, ev, res, fm) ==
     [s EXCEPT !.log = Append(@, [r |-> r, pc |-> pc, ev |-> ev, k |-> res.k, x |-> res.x, v |-> res.v,
-                                 cur |-> Cur(s), secs |-> Now(s)])]
-SetPc(s, r, pc) == [s EXCEPT !.rs[r].pc = pc]
+                                 cur |-> Cur(s), secs |-> Now(s), fm |-> fm])]
+AddLog(s, r, pc, ev, res) == AddLogM(s, r, pc, ev, res, FALSE)
 
 Insert(q, e) == LET k == Cardinality({i \in 1..Len(q) : q[i].t <= e.t})
                 IN SubSeq(q, 1, k) \o <<e>> \o SubSeq(q, k + 1, Len(q))
@@ -64,6 +70,32 @@ RECURSIVE ScheduleAll(_, _, _)
 ScheduleAll(s, t, w) == IF w = <<>> THEN s ELSE ScheduleAll(Schedule(s, t, Head(w)), t, Tail(w))
 
 R2(s, res) == [st |-> s, res |-> res]
+
+(* ---- block structure of a script:  try ... (except | finally) ... (endx | endf) ----
+   `except` is a catch-all handler (except BaseException); blocks nest. *)
+RECURSIVE ScanHandler(_, _, _), ScanEnd(_, _, _)
+ScanHandler(code, j, d) ==
+    IF j > Len(code) THEN 0
+    ELSE IF code[j].op = "try" THEN ScanHandler(code, j + 1, d + 1)
+    ELSE IF code[j].op \in {"endx", "endf"} THEN ScanHandler(code, j + 1, d - 1)
+    ELSE IF code[j].op \in {"except", "finally"} /\ d = 0 THEN j
+    ELSE ScanHandler(code, j + 1, d)
+HandlerOf(code, t) == ScanHandler(code, t + 1, 0)          \* marker of the handler of the try at t
+ScanEnd(code, j, d) ==
+    IF j > Len(code) THEN 0
+    ELSE IF code[j].op = "try" THEN ScanEnd(code, j + 1, d + 1)
+    ELSE IF code[j].op \in {"endx", "endf"} THEN (IF d = 0 THEN j ELSE ScanEnd(code, j + 1, d - 1))
+    ELSE ScanEnd(code, j + 1, d)
+EndOf(code, h) == ScanEnd(code, h + 1, 0)                  \* end of the handler that starts at marker h
+\* try statements whose protected region contains position i and whose handler takes the action
+\* (a return passes except handlers, everything else is caught by the catch-all)
+Protecting(code, i, act) ==
+    {t \in 1..Len(code) : /\ code[t].op = "try" /\ t < i /\ i < HandlerOf(code, t)
+                          /\ (act.k = "ret" => code[HandlerOf(code, t)].op = "finally")}
+Innermost(S) == IF S = {} THEN 0 ELSE CHOOSE t \in S : \A u \in S : u <= t
+\* finally handlers that contain i and lie inside the try at t: leaving them drops their pending action
+DroppedPend(code, i, t) ==
+    Cardinality({h \in 1..Len(code) : code[h].op = "finally" /\ h < i /\ i < EndOf(code, h) /\ h > t})
 
 (* ---- what next() does with the way the body ended ---- *)
 Finish(s, r, p, out) ==
@@ -78,7 +110,7 @@ Finish(s, r, p, out) ==
         ELSE IF cls = "AlwaysYield" THEN R2([s EXCEPT !.rs[r] = RS("Done", 1, out.v)], Ret(out.v))
         ELSE R2([s EXCEPT !.rs[r] = RS("Done", 1, @.term)], Exc(cls))
 
-RECURSIVE DoNext(_, _, _), RunBody(_, _, _), Api(_, _, _, _, _)
+RECURSIVE DoNext(_, _, _), RunBody(_, _, _, _, _, _, _), Throw(_, _, _, _, _, _, _), Api(_, _, _, _, _)
 
 DoNext(s, r, inval) ==
     LET R == s.rs[r] IN
@@ -93,46 +125,92 @@ DoNext(s, r, inval) ==
                 ELSE LET prev == p.code[R.pc - 1] IN
                      IF prev.op = "fget" THEN AddLog(s1, r, R.pc, "fval", Ret(s1.flow[prev.t]))
                      ELSE AddLog(s1, r, R.pc, "resume", Ret(IF prev.op = "wait" THEN NoneV ELSE inval))
-          b == RunBody(s2, r, inval)
+          b == RunBody(s2, r, R.pc, R.pend, inval, R.mid, "run")
           f == Finish(b.st, r, p, b.out)
       IN R2([f.st EXCEPT !.stack = SubSeq(@, 1, Len(@) - 1)], f.res)
 
-RunBody(s, r, iv) ==       \* iv: the value the body was resumed with
-    LET i == s.rs[r].pc
-        code == prog[r].code IN
+(* The body of r executes from instruction i with the pending-action stack pd.
+   iv: value the body was resumed with; res: resuming inside the embed loop at i;
+   mode "run": inside next() - a yield suspends the generator (pc, pend, mid are saved in rs[r]);
+   mode "fin": clean-up code of an abandoned generator (GeneratorExit was thrown at its yield) - it runs
+   outside next(), with the caller as current thread; a yield ends it (the generator "ignored GeneratorExit"
+   and is discarded), whatever leaves the body is ignored.                                               *)
+Suspend(s, r, pc, pd, mid, val) ==
+    [st |-> [s EXCEPT !.rs[r].pc = pc, !.rs[r].pend = pd, !.rs[r].mid = mid], out |-> Out("yield", "", val)]
+Ignored(s) == [st |-> s, out |-> Out("ignored", "", NoneV)]
+
+Throw(s, r, i, pd, act, iv, mode) ==      \* act (return / raise) happens at position i
+    LET code == prog[r].code
+        t == Innermost(Protecting(code, i, act))
+        nd == DroppedPend(code, i, t)
+        pd1 == SubSeq(pd, 1, Len(pd) - nd) IN
+    IF t = 0 THEN [st |-> s, out |-> act]                       \* leaves the body
+    ELSE LET h == HandlerOf(code, t) IN
+         IF code[h].op = "except"
+         THEN RunBody(AddLogM(s, r, h, "caught", Exc(act.x), mode = "fin"), r, h + 1, pd1, iv, FALSE, mode)
+         ELSE RunBody(AddLogM(s, r, h, "fin", Ret(NoneV), mode = "fin"), r, h + 1, Append(pd1, act), iv, FALSE, mode)
+
+RunBody(s, r, i, pd, iv, res, mode) ==
+    LET code == prog[r].code
+        fm == (mode = "fin") IN
     IF i > Len(code) THEN [st |-> s, out |-> Out("ret", "", NoneV)]
     ELSE LET ins == code[i] IN
-      CASE ins.op = "yn" -> [st |-> SetPc(s, r, i + 1), out |-> Out("yield", "", V("num", ins.v))]
-        [] ins.op = "yv" -> [st |-> SetPc(s, r, i + 1), out |-> Out("yield", "", V("str", ins.v))]
-        [] ins.op = "ret" -> [st |-> s, out |-> Out("ret", "", NoneV)]
-        [] ins.op = "raise" -> [st |-> s, out |-> Out("raise", "Boom", NoneV)]
-        [] ins.op = "yar" -> [st |-> s, out |-> Out("raise", "YieldAndReset", V("num", ins.v))]
-        [] ins.op = "alw" -> [st |-> s, out |-> Out("raise", "AlwaysYield", V("num", ins.v))]
+      CASE ins.op = "yn" -> IF fm THEN Ignored(s) ELSE Suspend(s, r, i + 1, pd, FALSE, V("num", ins.v))
+        [] ins.op = "yv" -> IF fm THEN Ignored(s) ELSE Suspend(s, r, i + 1, pd, FALSE, V("str", ins.v))
+        [] ins.op = "ret" -> Throw(s, r, i, pd, Out("ret", "", NoneV), iv, mode)
+        [] ins.op = "raise" -> Throw(s, r, i, pd, Out("raise", "Boom", NoneV), iv, mode)
+        [] ins.op = "yar" -> Throw(s, r, i, pd, Out("raise", "YieldAndReset", V("num", ins.v)), iv, mode)
+        [] ins.op = "alw" -> Throw(s, r, i, pd, Out("raise", "AlwaysYield", V("num", ins.v)), iv, mode)
+        [] ins.op = "try" -> RunBody(s, r, i + 1, pd, iv, FALSE, mode)
+        [] ins.op = "except" -> RunBody(s, r, EndOf(code, i) + 1, pd, iv, FALSE, mode)     \* nothing was raised
+        [] ins.op = "finally" ->                                                          \* fall through
+             RunBody(AddLogM(s, r, i, "fin", Ret(NoneV), fm), r, i + 1, Append(pd, Out("none", "", NoneV)), iv, FALSE, mode)
+        [] ins.op = "endx" -> RunBody(s, r, i + 1, pd, iv, FALSE, mode)
+        [] ins.op = "endf" ->
+             LET act == pd[Len(pd)]
+                 pd1 == SubSeq(pd, 1, Len(pd) - 1) IN
+             IF act.k = "none" THEN RunBody(s, r, i + 1, pd1, iv, FALSE, mode)
+             ELSE Throw(s, r, i, pd1, act, iv, mode)                 \* the pending return / exception goes on
         [] ins.op \in {"wait", "fget"} ->
              \* Condition.wait(): park the thread player (outermost routine of the chain) unless the test holds
-             IF TestOf(s, ins.t)
-             THEN [st |-> SetPc(s, r, i + 1), out |-> Out("yield", "", V("num", 0))]
-             ELSE [st |-> SetPc([s EXCEPT !.cond[ins.t].w = Append(@, s.stack[2])], r, i + 1),
-                   out |-> Out("yield", "", V("str", 0 - 1))]
+             IF Len(s.stack) < 2           \* only clean-up code can get here: wait() outside a routine raises
+             THEN Throw(s, r, i, pd, Out("raise", "Exception", NoneV), iv, mode)
+             ELSE LET s1 == IF TestOf(s, ins.t) THEN s ELSE [s EXCEPT !.cond[ins.t].w = Append(@, s.stack[2])] IN
+                  IF fm THEN Ignored(s1)
+                  ELSE Suspend(s1, r, i + 1, pd, FALSE, IF TestOf(s, ins.t) THEN V("num", 0) ELSE V("str", 0 - 1))
         [] ins.op = "embed" ->
              \* Stream.__embed__: try: while True: inval = yield self.next(inval) / except StopStream: return inval
-             LET inv == IF s.rs[r].mid THEN iv ELSE NoneV
+             LET inv == IF res THEN iv ELSE NoneV
                  a == Api(s, "next", ins.t, 0, inv) IN
              IF a.res.k = "ret"
-             THEN [st |-> [a.st EXCEPT !.rs[r].mid = TRUE], out |-> Out("yield", "", V(a.res.x, a.res.v))]
+             THEN (IF fm THEN Ignored(a.st) ELSE Suspend(a.st, r, i, pd, TRUE, V(a.res.x, a.res.v)))
              ELSE IF a.res.x \in {"StopStream", "PausedStream"}
-             THEN LET s1 == [a.st EXCEPT !.rs[r].mid = FALSE, !.rs[r].pc = i + 1]
-                  IN RunBody(AddLog(s1, r, i + 1, "resume", Ret(inv)), r, iv)
-             ELSE [st |-> a.st, out |-> Out("raise", a.res.x, NoneV)]
+             THEN RunBody(AddLogM(a.st, r, i + 1, "resume", Ret(inv), fm), r, i + 1, pd, iv, FALSE, mode)
+             ELSE Throw(a.st, r, i, pd, Out("raise", a.res.x, NoneV), iv, mode)
         [] OTHER ->
              LET a == Api(s, ins.op, ins.t, ins.v, NoneV)
-                 s1 == AddLog(a.st, r, i, "call", a.res) IN
-             IF a.res.k = "exc" /\ ins.c = 0 THEN [st |-> s1, out |-> Out("raise", a.res.x, NoneV)]
-             ELSE RunBody(SetPc(s1, r, i + 1), r, iv)
+                 s1 == AddLogM(a.st, r, i, "call", a.res, fm) IN
+             IF a.res.k = "exc" /\ ins.c = 0 THEN Throw(s1, r, i, pd, Out("raise", a.res.x, NoneV), iv, mode)
+             ELSE RunBody(s1, r, i + 1, pd, iv, FALSE, mode)
+
+MaxAbandon == 10
+(* stop() and reset() drop the generator.  A generator suspended at a yield is then closed: GeneratorExit is
+   thrown at that yield, so the except / finally blocks around it run - now, with the caller as the current
+   thread, while the routine is neither running nor (any more) resumable.  Whatever that code does - swallow
+   the GeneratorExit and go on, yield again, raise, stop / reset / pause other routines or the routine itself -
+   cannot keep stop() / reset() from succeeding: errors of abandoned clean-up code are nobody's to handle.     *)
+Abandon(s, r) ==
+    LET R == s.rs[r] IN
+    IF R.pc = 1 /\ ~R.mid THEN s
+    ELSE IF s.ab >= MaxAbandon           \* clean-up code that keeps restarting and stopping itself: not followed
+    THEN [s EXCEPT !.over = TRUE, !.rs[r].pc = 1, !.rs[r].mid = FALSE, !.rs[r].pend = <<>>]
+    ELSE LET y == IF R.mid THEN R.pc ELSE R.pc - 1           \* the yield the generator is suspended at
+             s0 == [s EXCEPT !.rs[r].pc = 1, !.rs[r].mid = FALSE, !.rs[r].pend = <<>>, !.ab = @ + 1]
+         IN Throw(s0, r, y, R.pend, Out("raise", "GeneratorExit", NoneV), NoneV, "fin").st
 
 DoStop(s, r) ==
     IF s.rs[r].state = "Running" THEN R2(s, Exc("RoutineException"))
-    ELSE R2([s EXCEPT !.rs[r] = RS("Done", 1, @.term)], Ret(NoneV))
+    ELSE R2([Abandon(s, r) EXCEPT !.rs[r].state = "Done"], Ret(NoneV))
 DoPause(s, r) ==
     IF s.rs[r].state = "Running" THEN R2(s, Exc("RoutineException"))
     ELSE IF s.rs[r].state \in {"Init", "Suspended"} THEN R2([s EXCEPT !.rs[r].state = "Paused"], Ret(NoneV))
@@ -142,7 +220,7 @@ DoResume(s, r) ==
     ELSE R2(s, Ret(NoneV))
 DoReset(s, r) ==
     IF s.rs[r].state = "Running" THEN R2(s, Exc("RoutineException"))
-    ELSE R2([s EXCEPT !.rs[r] = RS("Init", 1, NoTerm)], Ret(NoneV))       \* "to its initial state"
+    ELSE R2([Abandon(s, r) EXCEPT !.rs[r].state = "Init", !.rs[r].term = NoTerm], Ret(NoneV))   \* "to its initial state"
 DoPlay(s, r) ==
     IF s.rs[r].state \in {"Init", "Paused"}
     THEN R2(Schedule([s EXCEPT !.rs[r].state = "Suspended"], Now(s), r), Ret(NoneV))
@@ -186,7 +264,7 @@ Tick(s) ==      \* one iteration of the NRT scheduler loop: pop the earliest tas
          IN IF a.res.k = "ret" /\ a.res.x = "num" THEN R2(Schedule(a.st, e.t + a.res.v, e.r), Ret(NoneV))
             ELSE R2(a.st, Ret(NoneV))               \* StopStream ends the task; other errors are logged
 Ext(s, e) ==
-    LET s0 == [s EXCEPT !.log = <<>>, !.calls = <<>>] IN
+    LET s0 == [s EXCEPT !.log = <<>>, !.calls = <<>>, !.ab = 0] IN
     IF e.op = "tick" THEN Tick(s0)
     ELSE Api(s0, e.op, e.t, e.v, IF e.op = "next" /\ e.v # 0 THEN V("num", e.v) ELSE NoneV)
 
@@ -196,7 +274,7 @@ InitSt(p, conds, flows) ==
      secs |-> [x \in DOMAIN p \cup {"main"} |-> 0],
      cond |-> [c \in conds \cup flows |-> [test |-> FALSE, w |-> <<>>]],
      flow |-> [f \in flows |-> Unbound],
-     q |-> <<>>, log |-> <<>>, calls |-> <<>>]
+     q |-> <<>>, log |-> <<>>, calls |-> <<>>, ab |-> 0, over |-> FALSE]
 
 (* ================= L1: the property, as predicates over a state after an external call ================= *)
 States(s) == [r \in DOMAIN s.rs |-> s.rs[r].state]
@@ -205,7 +283,7 @@ StackRestoredAtRest(s) == s.stack = <<"main">>
 \* inside: every body observes itself as the current thread with the logical time it was entered with,
 \* in particular after every nested call returned or raised; and every call leaves the stack as it found it
 StackRestoredNested(s) ==
-    /\ \A i \in 1..Len(s.log) : s.log[i].cur = s.log[i].r
+    /\ \A i \in 1..Len(s.log) : ~s.log[i].fm => s.log[i].cur = s.log[i].r
     /\ \A i \in 1..Len(s.calls) : s.calls[i].poststack = s.calls[i].stack
 NoRunningAtRest(s) == \A r \in DOMAIN s.rs : s.rs[r].state # "Running"
 DoneRaisesStop(s) ==
@@ -220,6 +298,11 @@ SelfOpsRefused(s) ==
     \A i \in 1..Len(s.calls) : LET c == s.calls[i] IN
         (c.op \in {"stop", "pause", "reset"} /\ c.pre = "Running") =>
             (c.post = "Running" /\ c.res = Exc("RoutineException"))
+\* stop() / reset() of a routine that is not running always succeed, whatever the body's clean-up code does
+StopResetSucceed(s) ==
+    \A i \in 1..Len(s.calls) : LET c == s.calls[i] IN
+        (c.op \in {"stop", "reset"} /\ c.pre # "Running") =>
+            (c.res = Ret(NoneV) /\ c.post = (IF c.op = "stop" THEN "Done" ELSE "Init"))
 NextReturnsYielded(s) ==
     \A i \in 1..Len(s.calls) : LET c == s.calls[i] IN
         (c.op = "next" /\ c.pre \in {"Init", "Suspended"}) =>
@@ -270,6 +353,19 @@ R2Bodies == {P(0, 1, <<I("yn", "", 4, 0), I("raise", "", 0, 0)>>),
              P(0, 0, <<I("next", "r1", 0, 0), I("yv", "", 7, 0)>>),
              P(1, 0, <<I("stop", "r1", 0, 1)>>),
              P(0, 1, <<I("wait", "c1", 0, 0), I("yn", "", 2, 0)>>)}
+\* bodies with one try block: protected part a (1-2 instr.), handler b (0-MaxLen instr.), optional tail
+TryA == {<<I("yn", "", 8, 0)>>, <<I("yn", "", 8, 0), I("yn", "", 4, 0)>>, <<I("yn", "", 8, 0), I("raise", "", 0, 0)>>,
+         <<I("next", "r2", 0, 0), I("yn", "", 8, 0)>>, <<I("yn", "", 8, 0), I("ret", "", 0, 0)>>, <<I("yar", "", 4, 0)>>}
+TryB == {I("yv", "", 1, 0), I("stop", "r1", 0, 1), I("stop", "r2", 0, 1), I("reset", "r1", 0, 0), I("pause", "r2", 0, 0),
+         I("raise", "", 0, 0), I("next", "r2", 0, 1), I("ret", "", 0, 0)}
+TryScripts == {<<I("try", "", 0, 0)>> \o a \o <<I(h[1], "", 0, 0)>> \o b \o <<I(h[2], "", 0, 0)>> \o tl :
+                 a \in TryA, h \in {<<"except", "endx">>, <<"finally", "endf">>}, b \in ScriptsOver(TryB, MaxLen),
+                 tl \in {<<>>, <<I("yn", "", 2, 0)>>}}
+TryPartner == {<<I("yn", "", 4, 0), I("raise", "", 0, 0)>>,
+               <<I("try", "", 0, 0), I("yn", "", 4, 0), I("finally", "", 0, 0), I("stop", "r1", 0, 1), I("stop", "r2", 0, 1),
+                 I("endf", "", 0, 0)>>,
+               <<I("try", "", 0, 0), I("try", "", 0, 0), I("yn", "", 4, 0), I("except", "", 0, 0), I("endx", "", 0, 0),
+                 I("yn", "", 2, 0), I("finally", "", 0, 0), I("yv", "", 9, 0), I("endf", "", 0, 0)>>}
 Progs ==
     CASE ProgSel = 1 -> {[r \in {"r1"} |-> P(pl, 1, s)] : pl \in {0}, s \in ScriptsOver(VocabFlow, MaxLen)}
       [] ProgSel = 2 -> {[r \in {"r1", "r2"} |-> IF r = "r1" THEN P(0, 1, s) ELSE b] :
@@ -283,6 +379,13 @@ Progs ==
                           s1 \in ScriptsOver({I("yn", "", 8, 0), I("next", "r2", 0, 0), I("next", "r2", 0, 1), I("embed", "r2", 0, 0)}, MaxLen),
                           s2 \in ScriptsOver({I("yn", "", 4, 0), I("next", "r3", 0, 0), I("next", "r3", 0, 1), I("next", "r1", 0, 1)}, MaxLen),
                           s3 \in ScriptsOver({I("yn", "", 2, 0), I("raise", "", 0, 0), I("stop", "r1", 0, 1), I("wait", "c1", 0, 0)}, MaxLen)}
+      [] ProgSel = 7 -> {[r \in {"r1", "r2"} |-> IF r = "r1" THEN P(0, 1, s1) ELSE P(0, 0, s2)] :
+                          s1 \in TryScripts, s2 \in TryPartner}
+      [] ProgSel = 8 -> {[r \in {"r1", "r2"} |->
+                            IF r = "r1" THEN P(0, 1, <<I("try", "", 0, 0), I("yn", "", 8, 0), I("raise", "", 0, 0), I("except", "", 0, 0), I("yv", "", 1, 0),
+                                                       I("endx", "", 0, 0), I("yn", "", 2, 0)>>)
+                            ELSE P(0, 0, <<I("try", "", 0, 0), I("yn", "", 4, 0), I("finally", "", 0, 0), I("stop", "r1", 0, 1),
+                                           I("stop", "r2", 0, 1), I("raise", "", 0, 0), I("endf", "", 0, 0)>>)]}
       [] ProgSel = 5 -> {[r \in {"r1", "r2"} |->
                             IF r = "r1" THEN P(0, 1, <<I("next", "r1", 0, 1), I("stop", "r1", 0, 1), I("wait", "c1", 0, 0),
                                                        I("next", "r2", 0, 1), I("fget", "f1", 0, 0), I("yar", "", 4, 0)>>)
@@ -290,7 +393,7 @@ Progs ==
 Conds == {"c1"}
 Flows == {"f1"}
 
-NWitness == 22
+NWitness == 27
 WitnessInit == \A i \in 1..NWitness : TLCSet(i, FALSE)      \* registers of the vacuity guard (see the end)
 Init == /\ prog \in Progs
         /\ WitnessInit
@@ -321,7 +424,7 @@ InvStackRestored == StackRestoredAtRest(st) /\ StackRestoredNested(st)
 InvNoRunning == NoRunningAtRest(st)
 InvDoneRaisesStop == DoneRaisesStop(st)
 InvPausedRaises == PausedRaises(st)
-InvSelfOpsRefused == SelfOpsRefused(st)
+InvSelfOpsRefused == SelfOpsRefused(st) /\ StopResetSucceed(st)
 InvNextReturnsYielded == NextReturnsYielded(st)
 InvTransitionTable == TransitionTable(st)
 InvWake == WakeOnSignal(st) /\ AtMostOnceQueued(st) /\ QueueSorted(st)
@@ -354,7 +457,14 @@ Witnesses == <<
     AnyCall(LAMBDA c : c.op \in {"signal", "unhang", "fset"} /\ c.test /\ c.prew # <<>>),
     AnyCall(LAMBDA c : c.op = "signal" /\ ~c.test /\ c.prew # <<>>),
     \E i \in 1..Len(st.log) : st.log[i].ev = "fval" /\ st.log[i].x = "str",
-    Len(st.q) >= 2 >>
+    Len(st.q) >= 2,
+    \* clean-up code of an abandoned generator ran: swallowed the GeneratorExit; a finally block ran, made a call
+    \E i \in 1..Len(st.log) : st.log[i].fm /\ st.log[i].ev = "caught" /\ st.log[i].x = "GeneratorExit",
+    \E i \in 1..Len(st.log) : st.log[i].fm /\ st.log[i].ev = "fin",
+    \E i \in 1..Len(st.log) : st.log[i].fm /\ st.log[i].ev = "call" /\ st.log[i].r = "r2" /\ st.calls # <<>>
+         /\ AnyCall(LAMBDA c : c.op = "stop" /\ c.t = "r2" /\ Len(c.stack) = 1 /\ c.pre = "Suspended"),
+    AnyCall(LAMBDA c : c.op = "reset" /\ c.pre \in {"Suspended", "Paused"}),
+    \E i \in 1..Len(st.log) : ~st.log[i].fm /\ st.log[i].ev = "caught" /\ st.log[i].x = "Boom" >>
 WitnessInv == Len(Witnesses) = NWitness /\ \A i \in 1..NWitness : Witnesses[i] => TLCSet(i, TRUE)
 WitnessPost == \A i \in 1..NWitness : PrintT(<<"WITNESS", i, TLCGet(i)>>)
 =============================================================================
